@@ -4,6 +4,8 @@
 (*                                                                         *)
 (* An abstract declaration is one of                                       *)
 (*   [k |-> "record", fields |-> <<[n, t]>>]                               *)
+(*   [k |-> "grecord", fields]   (a generic record R<T>; a field type may  *)
+(*        mention T)                                                       *)
 (*   [k |-> "recgroup", fields]  (a record of a `type .. and ..` group     *)
 (*        whose field types mention a later record of the group / itself)  *)
 (*   [k |-> "union", gen |-> BOOLEAN, cases |-> <<[n, has, t]>>]           *)
@@ -46,12 +48,25 @@ Inst(t) == IF t = B("T") THEN B("string")
                   [] t[1] = "func"  -> <<"func", [i \in 1..Len(t[2]) |-> Inst(t[2][i])], Inst(t[3])>>
                   [] t[1] = "named" -> <<"named", t[2], [i \in 1..Len(t[3]) |-> Inst(t[3][i])]>>
 
+\* two type parameters A, B instantiated at string, int
+RECURSIVE Inst2(_)
+Inst2(t) == IF t = B("A") THEN B("string") ELSE IF t = B("B") THEN B("int")
+            ELSE CASE t[1] \in {"base", "unit"} -> t
+                   [] t[1] = "slice" -> <<"slice", Inst2(t[2])>>
+                   [] t[1] = "tuple" -> <<"tuple", [i \in 1..Len(t[2]) |-> Inst2(t[2][i])]>>
+                   [] t[1] = "func"  -> <<"func", [i \in 1..Len(t[2]) |-> Inst2(t[2][i])], Inst2(t[3])>>
+                   [] t[1] = "named" -> <<"named", t[2], [i \in 1..Len(t[3]) |-> Inst2(t[3][i])]>>
+
 Fo(d) ==
   CASE d.k = "record" -> "type R@ = {" \o JoinStr([i \in 1..Len(d.fields) |-> d.fields[i].n \o ": " \o FoT(d.fields[i].t)], "; ") \o "}\n"
+    \* a generic record: one type parameter T
+    [] d.k = "grecord" -> "type R@<T> = {" \o JoinStr([i \in 1..Len(d.fields) |-> d.fields[i].n \o ": " \o FoT(d.fields[i].t)], "; ") \o "}\n"
     \* a record in an `and` group: its fields may mention the record S@ declared AFTER it, or R@ itself (through a slice)
     [] d.k = "recgroup" -> "type R@ = {" \o JoinStr([i \in 1..Len(d.fields) |-> d.fields[i].n \o ": " \o FoT(d.fields[i].t)], "; ") \o "}\n"
                            \o "and S@ = {Z: int}\n"
     [] d.k = "union"  -> "type U@" \o (IF d.gen THEN "<T>" ELSE "") \o " =\n" \o
+                         CatS([i \in 1..Len(d.cases) |-> "| " \o d.cases[i].n \o "@" \o (IF d.cases[i].has THEN " of " \o FoT(d.cases[i].t) ELSE "") \o "\n"])
+    [] d.k = "union2" -> "type U@<A, B> =\n" \o
                          CatS([i \in 1..Len(d.cases) |-> "| " \o d.cases[i].n \o "@" \o (IF d.cases[i].has THEN " of " \o FoT(d.cases[i].t) ELSE "") \o "\n"])
     [] d.k = "func"   -> "let f@ " \o (IF d.params = <<>> THEN "()" ELSE JoinStr([i \in 1..Len(d.params) |-> "(a" \o ToString(i) \o ":" \o FoT(d.params[i]) \o ")"], " "))
                          \o " =\n  " \o (IF d.res = Unit THEN "()" ELSE IF d.res = B("int") THEN "0" ELSE "\"s\"") \o "\n"
@@ -62,6 +77,8 @@ Fo(d) ==
 Surface(d) ==
   CASE d.k = "record" ->
          <<"var _ = struct{" \o JoinStr([i \in 1..Len(d.fields) |-> d.fields[i].n \o " " \o GoT(d.fields[i].t)], "; ") \o "}(R@{})">>
+    [] d.k = "grecord" ->        \* R@[string] is the struct with T = string
+         <<"var _ = struct{" \o JoinStr([i \in 1..Len(d.fields) |-> d.fields[i].n \o " " \o GoT(Inst(d.fields[i].t))], "; ") \o "}(R@[string]{})">>
     [] d.k = "recgroup" ->       \* same fields in the same order whether or not their types are known when the record is read
          <<"var _ = struct{" \o JoinStr([i \in 1..Len(d.fields) |-> d.fields[i].n \o " " \o GoT(d.fields[i].t)], "; ") \o "}(R@{})",
            "var _ = struct{Z int}(S@{})">>
@@ -79,6 +96,18 @@ Surface(d) ==
                          IF d.gen THEN "var _ func() " \o U \o " = " \o N                              \* generic: a function even without payload
                          ELSE "var _ " \o U \o " = " \o N,                                           \* otherwise a package variable
                          IF d.gen THEN "var _ = " \o N \o "()" ELSE "var _ = &" \o N>>               \* (a variable is addressable, a call is not needed)
+         IN FlattenS([i \in 1..Len(d.cases) |-> one(d.cases[i])])
+    [] d.k = "union2" ->          \* a union with two type parameters: every constructor is a function
+         LET ta == "[string, int]"
+             U == "U@" \o ta
+             one(c) ==
+               LET S == "U@_" \o c.n \o "@" \o ta
+                   N == "New_U@_" \o c.n \o "@" \o ta
+               IN IF c.has
+                  THEN <<"var _ " \o U \o " = " \o S \o "{Value: " \o Zero(Inst2(c.t)) \o "}",
+                         "var _ " \o GoT(Inst2(c.t)) \o " = " \o S \o "{}.Value",
+                         "var _ func(" \o GoT(Inst2(c.t)) \o ") " \o U \o " = " \o N>>
+                  ELSE <<"var _ " \o U \o " = " \o S \o "{}", "var _ func() " \o U \o " = " \o N>>
          IN FlattenS([i \in 1..Len(d.cases) |-> one(d.cases[i])])
     [] d.k = "func"   ->
          <<"var _ func(" \o JoinStr([i \in 1..Len(d.params) |-> GoT(d.params[i])], ",") \o ")" \o (IF d.res = Unit THEN "" ELSE " " \o GoT(d.res)) \o " = f@">>
